@@ -722,7 +722,7 @@ def has_unsafe_storage(F, tix, depth=0):
     return False
 
 
-def rule_own(ctx, M):
+def rule_own(ctx, M, only=None):
     F = M.F
     adts = set()
     for m in M.members:
@@ -746,6 +746,8 @@ def rule_own(ctx, M):
         if a is None:
             continue
         n += 1
+        if only is not None and not only(cp):
+            continue
         bad = []
         unsafe_store = False
         # params that carry explicit bounds, none of which is a behaviour trait, are plain data
